@@ -92,7 +92,7 @@ def _problem_class(msg):
 def explore_pyc(run):
     erg = build_erg(run)
     quick = run.tier != 'thorough'
-    minors = [11, 9] if quick else [11, 10, 9, 8, 7]
+    minors = [11, 10, 9, 8] if quick else [11, 10, 9, 8, 7]   # quick: the corpus only for 3.11, the probes for every target with depth analysis
     probes = sorted(glob.glob(os.path.join(PROBES, '*.er')))
     corpus = sorted(glob.glob(os.path.join(run.repo, 'tests', 'should_ok', '*.er')) + glob.glob(os.path.join(run.repo, 'examples', '*.er')))
     work = tempfile.mkdtemp(prefix='pyc-', dir=run.scratch)
